@@ -168,6 +168,9 @@ func countedMapRange(ph *ssa.Phi, base ssa.Value, conds []core.CondEdge) bool {
 func derefLocal(v ssa.Value) ssa.Value {
 	for {
 		switch x := v.(type) {
+		case *ssa.ChangeType:
+			v = x.X
+			continue
 		case *ssa.Slice:
 			if x.Low == nil && x.High == nil {
 				v = x.X
@@ -366,6 +369,14 @@ func equivLen(L, N ssa.Value) bool {
 	if a, b := lenExpr(L), lenExpr(N); a != "" && a == b {
 		return true
 	}
+	// len(make([]T, n)) == n
+	for _, pr := range [][2]ssa.Value{{L, N}, {N, L}} {
+		if a, ok := isLenCall(pr[0]); ok {
+			if mk, ok := derefLocal(a).(*ssa.MakeSlice); ok && (mk.Len == pr[1] || canon(mk.Len) == canon(pr[1]) || (lenExpr(mk.Len) != "" && lenExpr(mk.Len) == lenExpr(pr[1]))) {
+				return true
+			}
+		}
+	}
 	// len(x[k:]) == len(x) - k
 	sub := func(p, q ssa.Value) bool {
 		a, ok := isLenCall(q)
@@ -472,6 +483,12 @@ func lenAtLeast(base, N ssa.Value, conds []core.CondEdge, measured string) bool 
 	}
 	if isLenOf(N, base) {
 		return true
+	}
+	// N = len(x) with x = make([]T, len(base))
+	if a, ok := isLenCall(N); ok {
+		if mk, ok := derefLocal(a).(*ssa.MakeSlice); ok && (isLenOf(mk.Len, base) || (lenExpr(mk.Len) != "" && lenExpr(mk.Len) == canon(derefLocal(base)))) {
+			return true
+		}
 	}
 	b := derefLocal(base)
 	if mk, ok := b.(*ssa.MakeSlice); ok {
@@ -693,6 +710,28 @@ func inRange(s varIdxSite, idx ssa.Value, ctx *idxCtx, depth int) (string, strin
 	if s.measured == "" && isLenOf(idx, base) {
 		atMost = true
 		why = "len of the same value"
+	}
+	if ph, ok := idx.(*ssa.Phi); ok && inLoopHeaderWithSelf(ph) && len(ph.Edges) == 2 {
+		// descending scan: i starts at len - k (k >= 1) and only decreases, so it stays below the length
+		startOK, stepOK := false, false
+		for i, e := range ph.Edges {
+			bo, isBo := e.(*ssa.BinOp)
+			if !isBo || bo.Op != token.SUB {
+				continue
+			}
+			k, isC := core.ConstInt(bo.Y)
+			if !isC || k < 1 {
+				continue
+			}
+			if ph.Block().Dominates(ph.Block().Preds[i]) {
+				stepOK = bo.X == ssa.Value(ph)
+			} else {
+				startOK = lenAtLeast(base, bo.X, ctx.conds, s.measured)
+			}
+		}
+		if startOK && stepOK {
+			setBelow("descending from len - k")
+		}
 	}
 	if ph, ok := idx.(*ssa.Phi); ok && s.measured == "" && inLoopHeaderWithSelf(ph) && countedMapRange(ph, base, ctx.conds) {
 		lb = max(lb, 0)
